@@ -88,6 +88,7 @@ func (c07) Generate(r *core.Rand, tier string, idx uint64) *core.Case {
 	}
 	twoRefs := !sweep && r.Chance(0.3)
 	authorised := 1
+	deauthorised := 0
 	withBase := sweep || r.Chance(0.9)
 	if withBase {
 		b.add(world.Op{Kind: "fix", Actor: 1, Ref: mainRef, TreeOf: tmpl[0], CommitKey: 1, EntryKey: -2})
@@ -128,6 +129,11 @@ func (c07) Generate(r *core.Rand, tier string, idx uint64) *core.Case {
 		actor := authorised
 		if e.Viol {
 			actor = 3
+			if deauthorised != 0 && r.Chance(0.5) {
+				// a violation by the developer a policy switch has just de-authorised:
+				// it verifies only if that policy entry was lost on the way
+				actor = deauthorised
+			}
 		}
 		id := b.add(world.Op{Kind: "fix", Actor: actor, Ref: ref, TreeOf: tmpl[e.Tree], CommitKey: actor, EntryKey: -2, N: i})
 		if e.Skip {
@@ -148,6 +154,7 @@ func (c07) Generate(r *core.Rand, tier string, idx uint64) *core.Case {
 			case 1: // switch who is authorised for main
 				np := pol.Clone()
 				np.Files["targets"].Version = pol.Files["targets"].Version + 1
+				deauthorised = authorised
 				if authorised == 1 {
 					authorised = 2
 				} else {
